@@ -124,9 +124,12 @@ pub fn big_aba<L: KeyboardLayout>(layout: L, key: KeyCode, tog: KeyCode, alterna
     let mut kb = Keyboard::new(ScancodeSet2::new(), layout, HandleControl::MapLettersToUnicode);
     let mut out = Vec::new();
     fn press<L: KeyboardLayout>(kb: &mut Keyboard<L, ScancodeSet2>, key: KeyCode, step: &'static str, out: &mut Vec<BigObs>) {
-        let pre = kb.get_modifiers().clone();
-        let got = kb.process_keyevent(KeyEvent::new(key, KeyState::Down));
-        out.push(BigObs { step, pre, mods: bits_from_mods(kb.get_modifiers()), mode: kb.get_ctrl_handling(), got });
+        // the key is held: four makes in a row (a fast path may engage only from the n-th repeat), each of them judged
+        for _ in 0..4 {
+            let pre = kb.get_modifiers().clone();
+            let got = kb.process_keyevent(KeyEvent::new(key, KeyState::Down));
+            out.push(BigObs { step, pre, mods: bits_from_mods(kb.get_modifiers()), mode: kb.get_ctrl_handling(), got });
+        }
     }
     press(&mut kb, key, "first press", &mut out);
     for i in 0..n - 1 {
@@ -309,6 +312,12 @@ pub fn real_world_key_sequences() -> Vec<Vec<KeyCode>> {
         vec![LShift, Insert],
         vec![CapsLock, CapsLock],
         vec![Escape, Escape],
+        vec![LControl, LShift, U, D, Key8, Key0, Key0, Return], // Ctrl+Shift+U hex entry (GTK / IBus), a surrogate
+        vec![LControl, LShift, U, D, F, F, F, Spacebar],
+        vec![LControl, LShift, U, Key2, Key0, A, C, Return],
+        vec![LControl, LShift, U, F, F, F, F, F, F, F, F, Return],
+        vec![RControl, RShift, U, Key1, Key1, Key0, Key0, Key0, Key0, Spacebar],
+        vec![LAlt, X],
     ]
 }
 
@@ -481,10 +490,10 @@ pub fn through_decoder(prop: &str, rep: &mut Report, cube: &Cube, focus: &[KeyCo
                 (rep(KeyCode::CapsLock, period - 1), KeyCode::RAltGr),   // CapsLock on, AltGr held
             ];
             for (changes, last) in combos {
-                let mut v = vec![HOp::Ev(*k, KeyState::Down)];
+                let mut v = vec![HOp::Ev(*k, KeyState::Down); 4];
                 v.extend(changes);
                 v.push(HOp::Ev(last, KeyState::Down));
-                v.push(HOp::Ev(*k, KeyState::Down));
+                v.extend(vec![HOp::Ev(*k, KeyState::Down); 4]);
                 v.extend((0..period).map(|i| HOp::Mode(i % 2)));
                 v.push(HOp::Ev(*k, KeyState::Down));
                 v.push(HOp::Mode(1));
